@@ -83,4 +83,16 @@ def parseLine (line : List UInt8) : Option (List UInt8) := do
   let bytes ← hexDecode h
   if bytes.all (· == 0) then none else some bytes
 
+/-- what `radar` hands to the decoder for one complete line: the parsed bytes, unless `--limit-parsing` is given and the downlink
+format (top five bits of the first byte) is not 17 -/
+def radarProcess (limit : Bool) (line : List UInt8) : Option (List UInt8) :=
+  match parseLine line with
+  | some bytes => if limit && (bytes.headD 0).toNat / 8 != 17 then none else some bytes
+  | none => none
+
+/-- `--retry-tcp`: several connections in a row. A connection's events are followed by its end of stream; the partial line of a
+dropped connection is discarded (`init_tcp_reader` starts with an empty buffer), everything processed so far stays -/
+def sessionsRun {Out : Type} (process : List UInt8 → Out) (sessions : List (List Ev)) : CS Out :=
+  sessions.foldl (fun s evs => clientStep process (evs.foldl (clientStep process) { s with ended := false }) .eof) {}
+
 end Adsb
